@@ -103,6 +103,30 @@ def lawJudge (op : String) (args : List Sexp) (impl : Sexp) : Bool × String :=
     else (bitsAll [decBits br, decBits c00, decBits c01, decBits c10, decBits c11] fun
       | r :: cs => r == f cs
       | _ => false, "law:nested-expansion")
+  | "law.elimall", list [atom "L", deg, w, ex, fa, de] =>
+    -- C06 / C07 (`bdd_exists_all`, `bdd_forall_all`, `bdd_derivative_all`): no inputs are left and
+    -- the constant is "satisfiable" / "tautology" / "odd weight"
+    let weight := decNat w
+    let ok (o : Sexp) (expected : Bool) : Bool := match o with
+      | list [names, nv, v] => (decNames names).isEmpty && decNat nv == 0 && decBool v == expected
+      | _ => false
+    if !ok ex (decide (0 < weight)) then (false, "law:exists-all-inputs-is-satisfiability")
+    else if !ok fa (decide (weight = 2 ^ decNat deg)) then (false, "law:forall-all-inputs-is-validity")
+    else (ok de (decide (weight % 2 = 1)), "law:derivative-by-all-inputs-is-parity-of-weight")
+  | "law.forall.many", list [atom "L", cls, isOr, keep, ins, v0, v1]
+  | "law.exists.many", list [atom "L", cls, isOr, keep, ins, v0, v1] =>
+    -- C06 on a wide disjunction / conjunction of 12 literals with 11 of them eliminated: what is left
+    -- is a function of the kept variable, computed here from the literal's polarity
+    let lits := (decClauses cls).head?.getD []
+    let k := decName keep
+    let pol := ((lits.find? (·.1 == k)).map (·.2)).getD true
+    let disj := decBool isOr
+    -- the other literals can be made all false (disjunction) / all true (conjunction) or not
+    let value (b : Bool) : Bool :=
+      let litv := b == pol
+      if op == "law.forall.many" then (if disj then litv else false) else (if disj then true else litv)
+    if !((decNames ins).all (· == k)) then (false, "law:eliminated-inputs-removed")
+    else (decBool v0 == value false && decBool v1 == value true, "law:many-eliminated-inputs")
   | "law.weight", list [atom "L", da, wa, wna, wb, wand, wor, n, wwo, wnwo] =>
     let d := decNat da
     if decNat wa + decNat wna != 2 ^ d then (false, "law:weight-complement")
